@@ -7,7 +7,7 @@ MANIFEST = dict(
          "every further element maximises, over the objects not yet chosen, the minimum distance to those already chosen (first maximum on ties). "
          "The two steps of a k-means iteration are decided on their real bodies: in exact ring arithmetic (double := Z/256) every object of a worker's slice gets an in-range label "
          "that minimises the squared distance (first minimum; sqrt by contract = any strictly increasing function), the worker writes nothing outside its slice and agrees with the single-thread routine; "
-         "on exact IEEE instances (small integer cells, clusters of 1, 2 or 4 objects) each centroid is the mean of the objects carrying its label, an empty cluster takes an in-range object. "
+         "on exact IEEE instances (small integer cells, clusters of 1 or 2 objects) each centroid is the mean of the objects carrying its label, an empty cluster takes an in-range object. "
          "The k-means labelling partition among threads is decided under C13 (slice_getLabels_).",
     note="Bounded (objects <= 3: four objects exhaust the solver's memory; selection sizes up to and above the object count). MaxDis_Fast is checked against the same specification for selection sizes up to the object count (it does not clamp larger requests); MDC and k-means++ selections (distinctness) are not under contract; the k-means step obligations use ring mode / exact instances (rounding and the convergence tolerance are not decided). "
          "Distances are oracles: CalculateDistance and the centroid distance (one variable, sqrt identity on the oracle tags).",
@@ -38,9 +38,9 @@ def jobs(tier):
         J.append(Job("kmeans_labels@r=%d,c=%d,k=%d" % (r, c, k), "C17/kmeans_steps.c", entry="h_kmeans_labels", srcs=KS, kind="bounded", mode="ring", defines={"VC_R": r, "VC_C": c, "VC_K": k},
                      unwind=max(r, c, k) + 3, functions=["getLabelsWorker", "getLabels"], timeout=900, bound="%d objects x %d variables, %d centroids; cells symbolic in -8..7 in the ring Z/256; every slice" % (r, c, k),
                      clause="k-means labelling: label in range, a nearest centroid (first minimum), frame of the worker slice, worker == single-thread"))
-    for (lab, r, c, k) in (# cluster sizes 1, 2, 4 only: the mean is then exactly representable (exact instances)
-                           [("{0,1,0}", 3, 1, 2), ("{1,1}", 2, 2, 2), ("{2,0,2}", 3, 1, 3), ("{0,0,0,0}", 4, 1, 1)] if tier == "quick" else
-                           [("{0,1,0}", 3, 1, 2), ("{1,1}", 2, 2, 2), ("{2,0,2}", 3, 1, 3), ("{0,0,0,0}", 4, 1, 1), ("{0,1,1,0}", 4, 2, 2), ("{1,0,2,1}", 4, 1, 3), ("{3,3,0}", 3, 1, 4)]):
+    for (lab, r, c, k) in (# cluster sizes 1 and 2 only: the mean is then exactly representable even when evaluated as a running mean (exact instances)
+                           [("{0,1,0}", 3, 1, 2), ("{1,1}", 2, 2, 2), ("{2,0,2}", 3, 1, 3)] if tier == "quick" else
+                           [("{0,1,0}", 3, 1, 2), ("{1,1}", 2, 2, 2), ("{2,0,2}", 3, 1, 3), ("{0,1,1,0}", 4, 2, 2), ("{1,0,2,1}", 4, 1, 3), ("{3,3,0}", 3, 1, 4)]):
         tag = "lab=%s,c=%d,k=%d" % (lab.replace(",", ""), c, k)
         J.append(Job("kmeans_centroids@" + tag, "C17/kmeans_steps.c", entry="h_kmeans_centroids", srcs=KS, kind="bounded", mode="ieee", defines={"VC_R": r, "VC_C": c, "VC_K": k, "VC_LAB": lab},
                      unwind=max(r, c, k) + 3, functions=["getCentroids"], timeout=900, bound="labels %s over %d clusters, %d variables; cells symbolic in {0,1,2,3} (IEEE, exact instances)" % (lab, k, c),
